@@ -28,6 +28,10 @@ CLAIMS = {
     text='Lean 4 theorem stream_delivers_all (for every completing producer schedule the stream yields exactly all pushes in order: none lost when the producer completes with a non-empty queue, none duplicated) plus framing lemmas (zero-chunk termination, no empty data chunk, no CR survives normalisation); differential run of a real DataStream handler driven by scripted schedules against the model, and of the wire bytes against an RFC 9112 de-chunker and the WHATWG event-stream parser',
     note=TB + 'modelled not verified: the executor and wakers (one poll = one schedule step), the self-referential queue pointer; the end-to-end statement wire_decodes (parser after de-chunker = messages) is checked by the independent parser on every run, its Lean proof is in progress',
     technique='Lean 4 proof (induction over poll schedules) + model/implementation correspondence'),
+ 'C18': dict(
+    text='partial: Lean 4 theorems over the transition system of the interrupt handler, the accept loop poll and reactor wakes on CATCH/WAKER (no_lost_wakeup for every reachable state under every interleaving; the lost wake-up of the unrepaired code as a machine-checked witness) and over the WaitGroup counter (howl_waits: each poll is Ready iff no session is alive, for every history and completion order); tied to the code through hook H4 by forcing the real handler body at every scheduling point of every poll of the real until_interrupt future on the real atomics, and by running the real WaitGroup on generated histories',
+    note=TB + 'cannot be exhibited by the model and not verified: OS signal delivery, the ctrlc thread, executor fairness, interleavings finer than handler-atomic on the real atomics, TCP accept',
+    technique='Lean 4 proof (reachable-state invariant by kernel-evaluated closure + induction over wait-group histories) + forced interleavings on the real atomics'),
  'C20': dict(
     text='Lean 4 theorems for every timestamp <= 9999-12-31T23:59:59 and every usize (imf_fixdate_exact, itoa_exact, hexized_exact) about definitions TRANSLATED from time.rs / num.rs on every run; differential run of the real functions against the model and against an independent calendar over every 7th day (quick) or every day number (thorough)',
     note=TB + 'the rendering sequence of into_imf_fixdate is a hand model (validated on every day number in the thorough tier)',
